@@ -35,7 +35,13 @@ def _tcp_job(args):
     from . import serial_rec
     from .common import set_logging
     set_logging(False)
-    lines, holds, pauses, nxt = args
+    lines, holds, pauses, nxt = args[:4]
+    kind = args[4] if len(args) > 4 else "socket"
+    if kind == "grbl":
+        # a serial link to a controller that greets with a Grbl banner: printcore switches line numbers off, the wire looks
+        # like the TCP one (no numbering, no checksums, no resets), paced by the acknowledgements
+        return serial_rec.run_job(lines, corrupt=(), holds={int(k): v for k, v in holds.items()}, pauses=pauses, next_jobs=nxt,
+                                  mode="serial", greeting=b"Grbl 1.1h ['$' for help]\n")
     return serial_rec.run_job(lines, corrupt=(), holds={int(k): v for k, v in holds.items()}, pauses=pauses, next_jobs=nxt, mode="socket")
 
 
@@ -259,7 +265,7 @@ class P(flow.Plan):
             holds = {j: rng.randint(0, k + 3) for j in range(2 * k + 6) if rng.random() < 0.25}
             pauses = sorted(rng.sample(range(1, k + 2), 1)) if i % 4 == 0 and k >= 2 else []
             nxt = [job_lines(rng, rng.randint(1, 4))] if i % 5 == 2 and not pauses else []
-            specs.append((lines, holds, pauses, nxt))
+            specs.append((lines, holds, pauses, nxt, "grbl" if i % 3 == 1 else "socket"))
         trs = flow.pool_map(_tcp_job, specs, 8, per_task=40)
 
         def judge(ts, tag):
